@@ -416,3 +416,12 @@ pub fn drive_bytes(bytes: &[u8], level: u8, deadline_s: u64) -> Verdict {
         Err(_) => Verdict::Hang,
     }
 }
+
+/// Runs `f` on its own thread; None = no result within the deadline (the thread is abandoned).
+pub fn with_deadline<T: Send + 'static>(secs: u64, f: impl FnOnce() -> T + Send + 'static) -> Option<Result<T, String>> {
+    let (tx, rx) = std::sync::mpsc::channel();
+    let _ = std::thread::Builder::new().stack_size(16 << 20).spawn(move || {
+        let _ = tx.send(fvcore::guarded(f));
+    });
+    rx.recv_timeout(std::time::Duration::from_secs(secs)).ok()
+}
